@@ -9,6 +9,7 @@
 //! + Pre-defined Operators Support (Common boolean, numeric and string operators)
 //! + Support function and operators registration
 //! + Support operator redirection
+#![allow(unexpected_cfgs)]
 mod define;
 mod error;
 mod parser;
@@ -23,6 +24,12 @@ mod value;
 mod context;
 mod descriptor;
 mod init;
+#[cfg(feature = "verif_sim")]
+pub mod verif_sync;
+#[cfg(feature = "verif_hooks")]
+pub mod verif_hooks {
+    pub use crate::descriptor::DescriptorManager;
+}
 use std::sync::Arc;
 
 /// ## Usage
